@@ -239,6 +239,20 @@ class Harness:
             cls = self.get(cls)
         return self.it.isinstance_(v, cls)
 
+    def enum_code(self, v, cls, table):
+        """table: member name -> integer code; returns the code of the (possibly symbolic) member v."""
+        acc = None
+        for m in reversed(self.members(cls)):
+            code = table[m.name]
+            acc = code if acc is None else sym.ite(self.it.enum_eq(v, m), code, acc)
+        return acc
+
+    def is_none(self, v):
+        return v is None
+
+    def is_member(self, v, cls, name):
+        return self.it.enum_eq(v, self.member(cls, name))
+
     def utf8(self, s):
         """UTF-8 bytes of a str as a list of byte values."""
         if isinstance(s, str):
@@ -409,6 +423,15 @@ class NativeHarness:
         if isinstance(cls, str):
             cls = self.get(cls)
         return isinstance(v, cls)
+
+    def enum_code(self, v, cls, table):
+        return table[v.name]
+
+    def is_none(self, v):
+        return v is None
+
+    def is_member(self, v, cls, name):
+        return v is self.member(cls, name)
 
     def utf8(self, s):
         return list(s.encode("utf-8"))
